@@ -218,8 +218,28 @@ def applyHook (x : ModX) (e : Env) : Env :=
   | none => e
   | some s => hook x.m s e
 
+/-- `td.keys(True)`: leaves and the nested tensordicts above them -/
+def hasKeyOrNode (e : Env) (k : Key) : Bool := e.any (fun kv => k.isPrefixOf kv.1)
+
+/-- the test of tensordict/nn/utils.py:set_skip_existing (decorator of every `forward`): under
+`set_skip_existing(True)` a module whose out_keys are all present, and none of whose in_keys is an out_key,
+returns its input as it is -/
+def skips (skip : Bool) (ins outs : List Key) (arg : Env) : Bool :=
+  skip && outs.all (hasKeyOrNode arg) && !(ins.any (· ∈ outs))
+
 /-- TensorDictModule.forward without tensordict_out. The error carries the argument as left. -/
-def fwdMod (x : ModX) (arg : Env) : Except (Env × Bool) Out :=
+def fwdMod (skip : Bool) (x : ModX) (arg : Env) : Except (Env × Bool) Out :=
+  if skips skip x.m.ins (x.sel.getD x.m.outs) arg then
+    -- the forward is skipped but the `_OutKeysSelect` forward hook still runs on the returned input: it drops the
+    -- unselected out_keys that happen to be there; when an in_key is missing it takes the call for a dispatched
+    -- one (`_detect_dispatch`) and returns the tensordict as it is (one selected key) or raises (several)
+    match x.sel with
+    | none => .ok { arg := arg, fresh := none }
+    | some s =>
+      if x.m.ins.all (hasKeyOrNode arg) then .ok { arg := hook x.m s arg, fresh := none }
+      else if s.length == 1 then .ok { arg := arg, fresh := none }
+      else .error (arg, false)
+  else
   match readArgs arg x.m.ins with
   | none => .error (arg, false)
   | some args =>
@@ -248,12 +268,14 @@ def Exec.afterErr (s : Exec) (cur' : Env) : Env :=
 
 mutual
 /-- one child called on the current execution object (`_run_module`, non-lazy tensordict) -/
-def fwdNode : Node → Env → Except (Env × Bool) Out
-  | .mod x, arg => fwdMod x arg
+def fwdNode (skip : Bool) : Node → Env → Except (Env × Bool) Out
+  | .mod x, arg => fwdMod skip x arg
   | .seq kids ip sel pt, arg =>
+    if skips skip (nodesInOut kids [] []).1 (sel.getD (dedupLast (nodesInOut kids [] []).2)) arg then
+      .ok { arg := arg, fresh := none } else
     -- tensordict_exec = tensordict.copy() only when the out-keys were selected
     let s0 : Exec := { arg := arg, exec := if sel.isSome then some arg else none }
-    match fwdKids kids pt s0 with
+    match fwdKids skip kids pt s0 with
     | .error a => .error a
     | .ok s =>
       let outKeys := sel.getD (dedupLast (nodesInOut kids [] []).2)
@@ -273,19 +295,19 @@ def fwdNode : Node → Env → Except (Env × Bool) Out
                 aliased := s.aliased || updAliases s.arg s.cur (outKeys ++ s.arg.map (·.1)) }
         else .ok { arg := s.arg, fresh := s.exec, aliased := s.aliased }
 /-- the loop over the children -/
-def fwdKids : List Node → Bool → Exec → Except (Env × Bool) Exec
+def fwdKids (skip : Bool) : List Node → Bool → Exec → Except (Env × Bool) Exec
   | [], _, s => .ok s
   | n :: ns, pt, s =>
-    if pt && !(n.ins.all (fun k => s.cur.has k)) then fwdKids ns pt s
+    if pt && !(n.ins.all (fun k => s.cur.has k)) then fwdKids skip ns pt s
     else
-      match fwdNode n s.cur with
+      match fwdNode skip n s.cur with
       | .error (cur', al) => .error (s.afterErr cur', s.aliased || al)
-      | .ok o => fwdKids ns pt (s.after o)
+      | .ok o => fwdKids skip ns pt (s.after o)
 end
 
 /-- top-level call with `tensordict_out=out` on a sequence: (argument after, tensordict_out after) -/
-def fwdSeqOut (kids : List Node) (sel : Option (List Key)) (pt : Bool) (arg out : Env) : Except (Env × Bool) (Env × Env × Bool) :=
-  match fwdKids kids pt { arg := arg, exec := some arg } with
+def fwdSeqOut (skip : Bool) (kids : List Node) (sel : Option (List Key)) (pt : Bool) (arg out : Env) : Except (Env × Bool) (Env × Env × Bool) :=
+  match fwdKids skip kids pt { arg := arg, exec := some arg } with
   | .error a => .error a
   | .ok s =>
     let K := sel.getD (dedupLast (nodesInOut kids [] []).2)
